@@ -28,6 +28,16 @@ What is generated (see RULE) and what is asserted:
     account id, a str-subclass text. "Bounceable or not, test-only or not, URL-safe or standard, raw or friendly" is read as the
     truth value of the argument (what `if flag:` in to_str always meant). A call that raises is not judged; a call that returns a
     text must return the reference text of that variant, which must parse back equal with exactly those flags.
+  * re-used objects (check_reuse): one OBJECT that holds several addresses in its life. It is obtained (tuple / raw text / friendly
+    text / copy / cell / subclass), used as the first address (any of the 8 renderings in three call styles, repr, hash, ==, cell,
+    raw form, printed), optionally cloned (copy.copy / deepcopy / pickle / Address(a)), and then re-pointed 1..5 times to another
+    VALID address: is_hex() / is_b64() - the two parsers are public methods that parse INTO the object they are called on - with
+    another address's text, assignment of wc / hash_part (one, both, in either order with a rendering in between), __init__ called
+    again, a parse that fails half-way (bad checksum, odd-length hex, garbage). Targets: another workchain only, another account
+    only, the same int(account)+workchain, one bit, the same address, there and back. After EVERY step the object must round-trip
+    as the address it holds now (raw + 8 variants equal the reference, parse back == it with the same hash and the variant's
+    flags, ==/hash/set agreement with a new object) and its untouched clone / source as the address that one still holds. After a
+    failed attempt the object is judged by what its public attributes say (only if that is a valid address).
   * first use (check_first_use): a FRESH child interpreter in which the first address operations of the process are made by 2..8
     threads released together (render / parse / reject a substituted text / repr / raw form / through a cell; own or the same
     address per thread; library imported before or inside the threads; default or warnings-are-errors + logging environment;
@@ -41,7 +51,8 @@ with an address of the other - a second import is outside the statement's "equal
 'True:..' in raw form); that a non-bool flag value is ACCEPTED by to_str (only: if it is, its truth value decides); anything about
 addresses whose account id is not 32 bytes or whose workchain is outside -128..127 (only that using them does not disturb valid
 ones); that a text which is not a rendering of an address (e.g. 48 x 'A') is rejected; which exception type a rejected text raises;
-the cell form of an address (C-properties on Builder/Slice).
+the cell form of an address (C-properties on Builder/Slice); the is_bounceable / is_test_only attributes of an object after is_b64()
+was called on it a second time (is_b64 only ever sets them); what an object holds after a parse into it failed.
 """
 import hashlib
 
@@ -63,9 +74,14 @@ RULE = ('case = (workchain -128..127, 32-byte account id, bounceable, test_only,
         'a descriptor of a bool or of a value of another kind: ints even/odd/huge/negative, int subclass, IntFlag/IntEnum, float, '
         'Fraction, Decimal, complex, None, str, bytes, containers, __bool__/__len__/__index__-only objects; call style; kinds of '
         'workchain / account / text object; origin of the address): the grid puts each of ~100 values into each flag position. '
+        're-used-object cases = (origin of the object, uses before: renderings 0..7 / repr / hash / eq / cell / raw / printed, clone kind and '
+        'which of the two is re-pointed, call style, 1..5 steps each (way of re-pointing: is_hex / is_b64 on the object, assignment of '
+        'wc / hash_part / both, __init__ again with tuple / raw / friendly / Address, failed parses; kind of target address; variant of '
+        'the text; uses in between; variant rendered first afterwards)): the grid = 14 ways x 7 target kinds x 6 earlier renderings, '
+        '6 origins x 4 clone kinds x 2 x 6 ways, lives of five addresses. '
         'first-use cases = (2..8 thread specs: address, variant, 1..2 first operations; repetitions; import inside threads; '
         'environment; byte order) run in a fresh child interpreter. non-trivial = non-default flags, negative '
-        'workchain, a substitution, an anycast prefix or a non-empty history (flag-value and first-use cases: all); distinct = distinct case')
+        'workchain, a substitution, an anycast prefix or a non-empty history (flag-value, re-used-object and first-use cases: all); distinct = distinct case')
 ASSUMPTIONS = ['harness/ref/refaddr.py (TEP-2 rendering) and refcrc bitwise CRC-16; python base64',
                'flag values: bool(x) of the interpreter is the truth value of x; first use: subprocess + json carry the child\'s results',
                'origins: Builder.store_bits/store_bit/store_uint/store_int/store_bytes and Slice.load_address only PRODUCE '
@@ -959,6 +975,284 @@ def classify_first(case):
             yield key
 
 
+# ------------------------------------------- one OBJECT, several addresses in its life (rendered, re-pointed, rendered again)
+ORIGINS_R = ('tuple', 'raw-text', 'friendly-text', 'copy', 'cell', 'subclass')
+CLONES = ('none', 'copy.copy', 'deepcopy', 'pickle', 'Address(a)')
+HOWS = ('is_hex', 'is_b64', 'assign-both', 'assign-wc', 'assign-hash', 'assign-hash-first', 'init-tuple', 'init-raw', 'init-friendly',
+        'init-copy', 'failed-is_b64-bad-crc', 'failed-is_hex-odd-length', 'failed-is_hex-garbage', 'failed-is_b64-of-raw')
+TARGETS = ('random', 'other-wc', 'other-acc', 'hash-neighbour', 'one-bit', 'same', 'back')
+BEFORE_USES = ('raw', 'repr', 'hash', 'eq', 'cell', 'tl', 'printed', 'default-to_str')
+
+
+def _target(kind, cur, orig, seed):
+    wc, acc = cur
+    h = hashlib.sha256(acc + b'target%d' % seed).digest()
+    ai = int.from_bytes(acc, 'big')
+    if kind == 'other-wc':
+        return (wc + 128 + 1 + h[0] % 255) % 256 - 128, acc
+    if kind == 'other-acc':
+        return wc, hashlib.sha256(h).digest()
+    if kind == 'hash-neighbour':                 # int(account) + workchain is the same number
+        if wc < 127 and ai > 0:
+            return wc + 1, (ai - 1).to_bytes(32, 'big')
+        if wc > -128 and ai < (1 << 256) - 1:
+            return wc - 1, (ai + 1).to_bytes(32, 'big')
+    if kind == 'one-bit':
+        return wc, acc[:-1] + bytes([acc[-1] ^ (1 << seed % 8)])
+    if kind == 'same':
+        return cur
+    if kind == 'back':
+        return orig
+    return h[0] - 128, hashlib.sha256(h).digest()
+
+
+def _render(obj, v, style):
+    """one friendly rendering, the way callers write it: positional, by keyword, or leaving out what is a default"""
+    b, t, u = bool(v & 1), bool(v & 2), bool(v & 4)
+    if style == 0:
+        return call(obj.to_str, True, u, b, t)
+    if style == 1:
+        return call(lambda: obj.to_str(is_user_friendly=True, is_url_safe=u, is_bounceable=b, is_test_only=t))
+    kw = {n: x for n, x, d in zip(FLAG_NAMES, (True, u, b, t), (True, True, True, False)) if x is not d}
+    return call(lambda: obj.to_str(**kw))
+
+
+def _holds(obj, wc, acc, Address, first=0, style=0):
+    """(clause, detail) when the object - which holds (wc, acc) NOW - does not round-trip in raw form and all 8 friendly variants
+    (variant `first` first), or does not agree in == / hash / set with a new object for (wc, acc); else None"""
+    rawt = refaddr.raw(wc, acc)
+    ok, txt = call(obj.to_str, False)
+    if not ok or txt != rawt:
+        return 'to_str/raw-differs', f'{txt!r} != {rawt}'
+    ok, fresh = call(Address, (wc, acc))
+    if not ok:
+        return 'construct/raises', repr(fresh)
+    ok, res = call(lambda: (bool(obj == fresh) and bool(fresh == obj), hash(obj) == hash(fresh), len({obj, fresh}) == 1 and {fresh: 1}.get(obj) == 1))
+    if not ok or not res[0]:
+        return 'eq/not-equal-to-a-new-object-for-the-same-address', f'{rawt}: {res!r}'
+    if not res[1] or not res[2]:
+        return 'hash/equal-addresses-hash-differently', f'{rawt}: the object and a new Address for the same (workchain, account): {res!r}'
+    for i in range(8):
+        v = (first + i) % 8
+        b, t = bool(v & 1), bool(v & 2)
+        want = refaddr.friendly(wc, acc, b, t, bool(v & 4))
+        ok, txt = _render(obj, v, (style + i) % 3)
+        if not ok or txt != want:
+            return 'to_str/friendly-differs-from-TEP2', f'variant {v}: {txt!r}, the object holds {rawt} = {want}'
+        ok, p = call(Address, txt)
+        if not ok:
+            return 'parse/friendly-rejected', f'{txt}: {p!r}'
+        ok, res = call(lambda: (p.wc == wc and p.hash_part == acc and bool(p == obj) and bool(obj == p), hash(p) == hash(obj) and len({p, obj}) == 1,
+                                bool(p.is_bounceable) == b and bool(p.is_test_only) == t))
+        if not ok or not res[0]:
+            return 'parse/friendly-not-equal', f'{txt} -> {p.wc}:{p.hash_part.hex()}, rendered from an object that holds {rawt}'
+        if not res[1]:
+            return 'hash/equal-addresses-hash-differently', f'{txt} parsed back == the object it was rendered from, hashes differ'
+        if not res[2]:
+            return 'parse/flags-lost', f'{txt}: bounceable={p.is_bounceable!r} test_only={p.is_test_only!r}'
+    ok, q = call(Address, rawt)
+    if not ok:
+        return 'parse/raw-rejected', f'{rawt}: {q!r}'
+    ok, res = call(lambda: q.wc == wc and q.hash_part == acc and bool(q == obj) and bool(obj == q) and hash(q) == hash(obj) and len({q, obj}) == 1)
+    if not ok or not res:
+        return 'parse/raw-not-equal', f'{rawt} -> {q.wc}:{q.hash_part!r}'
+    return None
+
+
+def check_reuse(case):
+    """The statement quantifies over addresses, not over objects that have held one address all their life. wc / hash_part are
+    plain public attributes, and is_hex() / is_b64() - the two parsers - are public methods that parse INTO the object they are
+    called on (`if a.is_hex(text): ...`). One object: obtained (origin), used (a list of renderings / other uses), optionally
+    cloned (copy.copy / deepcopy / pickle / Address(a): whatever the object remembers travels or is shared), then re-pointed step
+    by step to other VALID addresses - by is_hex / is_b64 of another address's text, by assignment of one or both attributes, by
+    calling __init__ again, by a parse that fails half-way (bad checksum: is_b64 has assigned before it raises; odd-length hex:
+    is_hex has assigned the workchain before it returns False). After every step the object must round-trip as the address it
+    holds NOW (raw form + all 8 variants: text equals the reference, parses back == the object with the same hash and the
+    variant's flags; == / hash / set agreement with a new object), and the object it was cloned from / its clone, which was NOT
+    touched, must still round-trip as the address it holds. What the object's own is_bounceable / is_test_only attributes say
+    after is_b64 is not judged (the text forms' flags are arguments of to_str)."""
+    import copy
+    import pickle
+    from pytoniq_core.boc.address import Address
+    from pytoniq_core.boc.builder import Builder
+    wc, acc = case['wc'], bytes.fromhex(case['acc'])
+    v0 = int(case['bounce']) | int(case['test']) << 1 | int(case['url']) << 2
+    orig = (wc, acc)
+    origin = case['origin']
+    mk = {'tuple': lambda: Address((wc, acc)), 'raw-text': lambda: Address(refaddr.raw(wc, acc)),
+          'friendly-text': lambda: Address(refaddr.friendly(wc, acc, bool(v0 & 1), bool(v0 & 2), bool(v0 & 4))),
+          'copy': lambda: Address(Address(refaddr.raw(wc, acc))),
+          'cell': lambda: Builder().store_address(Address((wc, acc))).end_cell().begin_parse().load_address(),
+          'subclass': lambda: type('Derived', (Address,), {})((wc, acc))}[origin]
+    ok, src = call(mk)
+    if not ok or not isinstance(src, Address) or src.wc != wc or src.hash_part != acc:
+        return None if origin == 'cell' else Fail('construct/raises', f'{origin}: {src!r}')
+    other = Address((wc, hashlib.sha256(acc + b'other').digest()))
+    # what the caller did with the object before
+    for k, w in enumerate(case['before']):
+        if isinstance(w, int):
+            ok, txt = _render(src, w, (case['style'] + k) % 3)
+            want = refaddr.friendly(wc, acc, bool(w & 1), bool(w & 2), bool(w & 4))
+            if not ok or txt != want:
+                return Fail('to_str/friendly-differs-from-TEP2', f'new object from {origin}, variant {w}: {txt!r} != {want}')
+        elif w == 'printed':
+            describe(src)
+        elif w == 'default-to_str':
+            call(src.to_str)
+        else:
+            _use(src, [w], v0, Address, other)
+    clone = case['clone']
+    if clone == 'none':
+        a, by = src, None
+    else:
+        ok, c = call({'copy.copy': lambda: copy.copy(src), 'deepcopy': lambda: copy.deepcopy(src),
+                      'pickle': lambda: pickle.loads(pickle.dumps(src)), 'Address(a)': lambda: Address(src)}[clone])
+        if not ok or not isinstance(c, Address) or c.wc != wc or c.hash_part != acc:
+            a, by, clone = src, None, 'none'     # cannot be cloned this way: nothing to compare
+        else:
+            a, by = (c, src) if case['repoint'] == 'clone' else (src, c)
+    cur = orig
+    for i, stp in enumerate(case['steps']):
+        how = stp['how']
+        twc, tacc = _target(stp['target'], cur, orig, stp['seed'])
+        vt = stp['vt']
+        tfr = refaddr.friendly(twc, tacc, bool(vt & 1), bool(vt & 2), bool(vt & 4))
+        exp = (twc, tacc)
+        failed = how.startswith('failed-')
+        if how == 'is_hex':
+            ok, r = call(a.is_hex, refaddr.raw(twc, tacc))
+        elif how == 'is_b64':
+            ok, r = call(a.is_b64, tfr)
+        elif how == 'assign-both':
+            a.wc, a.hash_part = twc, tacc
+            ok, r = True, True
+        elif how == 'assign-wc':
+            a.wc = twc
+            ok, r, exp = True, True, (twc, cur[1])
+        elif how == 'assign-hash':
+            a.hash_part = tacc
+            ok, r, exp = True, True, (cur[0], tacc)
+        elif how == 'assign-hash-first':         # the two assignments in the other order, a rendering in between
+            a.hash_part = tacc
+            _render(a, vt, 0)
+            a.wc = twc
+            ok, r = True, True
+        elif how == 'init-tuple':
+            ok, r = call(a.__init__, (twc, tacc))
+        elif how == 'init-raw':
+            ok, r = call(a.__init__, refaddr.raw(twc, tacc))
+        elif how == 'init-friendly':
+            ok, r = call(a.__init__, tfr)
+        elif how == 'init-copy':
+            ok, r = call(a.__init__, Address((twc, tacc)))
+        elif how == 'failed-is_b64-bad-crc':
+            ok, r = call(a.is_b64, _bad_of(tfr, 45 + stp['seed'] % 3 + 48 * (stp['seed'] % 61), bool(vt & 4)))
+        elif how == 'failed-is_hex-odd-length':
+            ok, r = call(a.is_hex, refaddr.raw(twc, tacc) + '0')
+        elif how == 'failed-is_hex-garbage':
+            ok, r = call(a.is_hex, (tfr, f'{twc}:', f'{twc}:zz', 'x:' + tacc.hex(), f'{twc}:{tacc.hex()}:')[stp['seed'] % 5])
+        elif how == 'failed-is_b64-of-raw':
+            ok, r = call(a.is_b64, refaddr.raw(twc, tacc))
+        else:
+            raise AssertionError(how)
+        ok2, held = call(lambda: (a.wc, a.hash_part))
+        if failed:
+            # nothing is promised about an attempt that fails; the object holds whatever it holds now - if that is an address
+            if not ok2 or type(held[0]) is not int or not -128 <= held[0] <= 127 or type(held[1]) is not bytes or len(held[1]) != 32:
+                return None
+            exp = held
+        else:
+            if how in ('is_hex', 'is_b64') and (not ok or not r):
+                form = 'raw' if how == 'is_hex' else 'friendly'
+                return Fail(f'parse/{form}-rejected', f'{how}() called on an object that holds {refaddr.raw(*cur)} with the text of '
+                            f'{refaddr.raw(twc, tacc)}: {r!r}')
+            if not ok:
+                return None                      # __init__ called again is not accepted: not judged
+            if not ok2 or held != exp:
+                if how in ('is_hex', 'is_b64'):
+                    form = 'raw' if how == 'is_hex' else 'friendly'
+                    return Fail(f'parse/{form}-not-equal', f'{how}() of the text of {refaddr.raw(twc, tacc)} on an object that held '
+                                f'{refaddr.raw(*cur)} returned {r!r}; the object holds {held!r}')
+                return None
+        cur = exp
+        for w in stp['between']:
+            _use(a, [w], vt, Address, other)
+        bad = _holds(a, cur[0], cur[1], Address, first=stp['first'], style=case['style'] + i)
+        if bad:
+            return Fail(f'reused-object/after-{how}/{bad[0]}',
+                        f'object from {origin}' + (f', {case["repoint"]} of {clone}' if by is not None else '') +
+                        f', used {case["before"]} as {refaddr.raw(wc, acc)}, step {i}: {how} -> now holds {refaddr.raw(*cur)}: {bad[1]}')
+        if by is not None:
+            bad = _holds(by, wc, acc, Address, first=stp['first'], style=case['style'])
+            if bad:
+                return Fail(f'reused-object/untouched-{"source" if case["repoint"] == "clone" else "clone"}-of-{clone}/{bad[0]}',
+                            f'{refaddr.raw(wc, acc)}: after its {"clone" if case["repoint"] == "clone" else "source"} was re-pointed '
+                            f'({how}) to {refaddr.raw(*cur)} and rendered: {bad[1]}')
+    return None
+
+
+def _reuse_case(k, origin, clone, repoint, before, steps):
+    return dict(_base(k, b'reuse'), origin=origin, clone=clone, repoint=repoint, before=list(before), style=k % 3, steps=steps)
+
+
+def enum_reuse(tier):
+    k = 0
+    befores = ([0, 1, 2, 3, 4, 5, 6, 7], [], ['repr'], ['default-to_str', 'hash'], None, None)
+    # every way of re-pointing x every kind of target x what was rendered before (all / nothing / repr only / one variant)
+    for how in HOWS:
+        for tg in TARGETS:
+            for bi, bf in enumerate(befores):
+                k += 1
+                bf = bf if bf is not None else [(k * 3 + bi) % 8] + (['raw', 'cell'] if bi == 5 else [])
+                steps = [{'how': how, 'target': tg if tg != 'back' else 'random', 'seed': k, 'vt': k % 8, 'first': (k // 8) % 8, 'between': []}]
+                if tg == 'back' or bi == 0:      # ... and back again / onwards by another way
+                    steps.append({'how': HOWS[(k + bi) % 10] if tg != 'back' else how, 'target': tg, 'seed': k + 1, 'vt': (k + 3) % 8,
+                                  'first': k % 8, 'between': [['repr'], [], ['hash', 'cell']][k % 3]})
+                yield _reuse_case(k, ORIGINS_R[k % len(ORIGINS_R)], 'none', 'source', bf, steps)
+    # origin x clone x which of the two is re-pointed x way
+    for origin in ORIGINS_R:
+        for clone in CLONES[1:]:
+            for repoint in ('clone', 'source'):
+                for how in ('is_hex', 'is_b64', 'assign-both', 'assign-wc', 'init-raw', 'failed-is_b64-bad-crc'):
+                    k += 1
+                    bf = ([0, 1, 2, 3, 4, 5, 6, 7], [k % 8], ['repr', (k + 1) % 8])[k % 3]
+                    yield _reuse_case(k, origin, clone, repoint, bf,
+                                      [{'how': how, 'target': TARGETS[k % 5], 'seed': k, 'vt': k % 8, 'first': (k // 3) % 8, 'between': []}])
+    # a long life: five addresses one after the other, every way once
+    for r in range(8 if tier == 'quick' else 200):
+        k += 1
+        steps = [{'how': HOWS[(r + 3 * j) % len(HOWS)], 'target': TARGETS[(r + j) % len(TARGETS)], 'seed': k * 7 + j, 'vt': (r + j) % 8,
+                  'first': (r * 5 + j) % 8, 'between': [[], ['repr'], ['raw', 'hash']][(r + j) % 3]} for j in range(5)]
+        yield _reuse_case(k, ORIGINS_R[r % len(ORIGINS_R)], CLONES[r % len(CLONES)], ('clone', 'source')[r // 5 % 2], [r % 8, 'repr'], steps)
+
+
+def strat_reuse(tier):
+    v = st.integers(0, 7)
+    before = st.lists(st.one_of(v, v, st.sampled_from(BEFORE_USES)), max_size=10)
+    step = st.fixed_dictionaries({'how': st.sampled_from(HOWS), 'target': st.sampled_from(TARGETS), 'seed': st.integers(0, 10 ** 6), 'vt': v,
+                                  'first': v, 'between': st.lists(st.sampled_from(BEFORE_USES[:6]), max_size=2)})
+    return st.fixed_dictionaries({'wc': st.integers(-128, 127), 'acc': _acc.map(bytes.hex), 'bounce': st.booleans(), 'test': st.booleans(),
+                                  'url': st.booleans(), 'origin': st.sampled_from(ORIGINS_R), 'clone': st.sampled_from(CLONES + ('none', 'none')),
+                                  'repoint': st.sampled_from(['clone', 'source']), 'before': before, 'style': st.integers(0, 2),
+                                  'steps': st.lists(step, min_size=1, max_size=4)})
+
+
+def classify_reuse(case):
+    yield ('neg-wc' if case['wc'] < 0 else 'wc>=0')
+    yield 'origin=' + case['origin']
+    if case['clone'] != 'none':
+        yield f"clone={case['clone']}/{case['repoint']}-re-pointed"
+    rendered = {w for w in case['before'] if isinstance(w, int)}
+    yield 'rendered-before=' + ('none' if not rendered else 'all-8' if len(rendered) == 8 else 'some')
+    for w in case['before']:
+        if not isinstance(w, int):
+            yield 'used-before=' + w
+    yield f"steps={len(case['steps'])}"
+    for stp in case['steps']:
+        yield 'step=' + stp['how']
+        yield 'target=' + stp['target']
+
+
 HEXCH = '0123456789abcdefABCDEF'
 
 
@@ -1153,6 +1447,15 @@ SUBCHECKS = [
              'sparse keyword call; plus pairs, int-subclass workchains, bytes-subclass accounts, str-subclass texts'),
     Sub('flag-values-random', check_flag_values, strategy=strat_flag_values, classify=classify_flags, nontrivial=lambda c: True,
         n=(500, 30000), shards=(4, 16)),
+    Sub('reused-object-grid', check_reuse, enum=enum_reuse, classify=classify_reuse, nontrivial=lambda c: True, shards=(4, 8),
+        note='one object that holds several addresses in its life: every way of re-pointing it (is_hex / is_b64 called on it, '
+             'assignment of wc / hash_part, __init__ again, parses that fail half-way) x kind of target (other workchain only, other '
+             'account only, same python hash, one bit, the same, there and back) x what was rendered before (all 8 / nothing / repr / '
+             'one variant); origin x clone (copy.copy / deepcopy / pickle / Address(a)) x which of the two is re-pointed; lives of five '
+             'addresses. After every step: raw form + 8 variants of the object round-trip as the address it holds now; the untouched '
+             'clone / source still as the old one'),
+    Sub('reused-object-random', check_reuse, strategy=strat_reuse, classify=classify_reuse, nontrivial=lambda c: True,
+        n=(400, 40000), shards=(4, 16)),
     Sub('first-use-in-a-fresh-process', check_first_use, enum=enum_first_use, classify=classify_first, nontrivial=lambda c: True,
         shards=(4, 8), case_cpu_s=120,
         note='a child interpreter in which the FIRST address renderings / parsings of the process are made by 2..8 threads released '
